@@ -245,6 +245,12 @@ class DRYRule(BaseLintRule):  # pylint: disable=too-many-instance-attributes
         self._helpers.inline_ignore.clear()
         self._constants = []
         self._file_contents = {}
+        # Reset cross-file evidence so that the next run starts clean (mirrors StringlyTypedRule.finalize)
+        self._storage = None
+        self._file_analyzer = None
+        self._config = None
+        self._project_root = None
+        self._initialized = False
         return violations
 
 
